@@ -6,18 +6,19 @@ package engine
 
 // Config describes the container.
 type Config struct {
-	Refresh  string `json:"refresh"`            // none | manual | autoinj | autort
-	RateMs   int    `json:"rate_ms,omitempty"`  // autort: ticker period in ms
-	QueueLen int    `json:"qlen"`               // heap manager queue length; -1 = library default
-	Width    int    `json:"width,omitempty"`    // WithWidth; 0 = not set
-	Pop      bool   `json:"pop,omitempty"`      // PopCompletedMode
-	PtyRows  int    `json:"pty_rows,omitempty"` // >0: output is a pty of this size
-	PtyCols  int    `json:"pty_cols,omitempty"`
-	Delay    bool   `json:"delay,omitempty"`    // WithRenderDelay, released by a "release" step
-	Notifier bool   `json:"notifier,omitempty"` // WithShutdownNotifier
-	NoOutput bool   `json:"no_output,omitempty"`
-	AlsoAuto int    `json:"also_auto,omitempty"` // manual refresh only: WithAutoRefresh given too, 1 = before, 2 = after WithManualRefresh (manual refresh wins either way)
-	UserWG   bool   `json:"user_wg,omitempty"` // WithWaitGroup: Wait also waits for a user wait group released ~1 ms after Wait was called
+	Refresh    string `json:"refresh"`            // none | manual | autoinj | autort
+	RateMs     int    `json:"rate_ms,omitempty"`  // autort: ticker period in ms
+	QueueLen   int    `json:"qlen"`               // heap manager queue length; -1 = library default
+	Width      int    `json:"width,omitempty"`    // WithWidth; 0 = not set
+	Pop        bool   `json:"pop,omitempty"`      // PopCompletedMode
+	PtyRows    int    `json:"pty_rows,omitempty"` // >0: output is a pty of this size
+	PtyCols    int    `json:"pty_cols,omitempty"`
+	Delay      bool   `json:"delay,omitempty"`       // WithRenderDelay, released by a "release" step
+	DelayNever bool   `json:"delay_never,omitempty"` // the render delay is never released, not even before Wait
+	Notifier   bool   `json:"notifier,omitempty"`    // WithShutdownNotifier
+	NoOutput   bool   `json:"no_output,omitempty"`
+	AlsoAuto   int    `json:"also_auto,omitempty"` // manual refresh only: WithAutoRefresh given too, 1 = before, 2 = after WithManualRefresh (manual refresh wins either way)
+	UserWG     bool   `json:"user_wg,omitempty"`   // WithWaitGroup: Wait also waits for a user wait group released ~1 ms after Wait was called
 }
 
 // DecorSpec describes one decorator of a bar (besides the row tag).
@@ -29,7 +30,7 @@ type DecorSpec struct {
 	Wrap     []string `json:"wrap,omitempty"` // oncomplete onabort meta oncompletemeta onabortmeta ocoa
 	Listener bool     `json:"listener,omitempty"`
 	Ewma     bool     `json:"ewma,omitempty"`
-	SlowUs   int      `json:"slow_us,omitempty"` // Decor sleeps this long (widens race windows)
+	SlowUs   int      `json:"slow_us,omitempty"`  // Decor sleeps this long (widens race windows)
 	Disabled bool     `json:"disabled,omitempty"` // switched off with decor.OnCondition(d, false): every wrapper must pass the nil on, the bar does not get it
 }
 
@@ -52,11 +53,14 @@ type BarSpec struct {
 	ExtErrAt     int         `json:"ext_err_at,omitempty"`  // k-th extender call fails
 	BarWidth     int         `json:"bar_width,omitempty"`
 	NoTag        bool        `json:"no_tag,omitempty"`
-	ID           int         `json:"id,omitempty"` // BarID option (0 = not set)
+	ID           int         `json:"id,omitempty"`       // BarID option (0 = not set)
 	Builtins     []string    `json:"builtins,omitempty"` // built-in decorators appended: avgeta avgspeed ewmaeta ewmaspeed pct counters elapsed name spinner
 }
 
 // Step is one client operation.
+// An "add" step with Flag set requests a frame from inside one of its option callbacks (the frame cannot be
+// served before Add is through). A "tick" step whose Text is "prio", "uprio" or "uprio-lazy" carries a priority change (Bar, N) that a
+// client goroutine issues while that render cycle is in progress.
 type Step struct {
 	Op   string   `json:"op"`
 	Bar  int      `json:"bar,omitempty"`
